@@ -21,6 +21,7 @@ fn main() {
             ("C15", 1) => vharness::checks_misc::c15_soup_case,
             ("C13", 1) | ("C13", 2) => vharness::checks_conc::c13_case,
             ("C14", 1) => vharness::checks_conc::c14_case,
+            ("C11", 3) => vharness::checks_scale::c11_huge_case,
             _ => usage(),
         };
         std::process::exit(vharness::monitor::worker_main(seed, stream, from, to, f));
@@ -134,6 +135,12 @@ fn replay(path: &str) -> i32 {
                 ("C06", 2) => vharness::checks_hist::c06_general_case(&mut rng, &mut st),
                 ("C07", 3) => vharness::checks_hist::c07_history_case(&mut rng, &mut st),
                 ("C09", 1) => vharness::checks_hist::c09_case(&mut rng, &mut st),
+                ("C09", 2) => vharness::checks_scale::c09_big_case(&mut rng, &mut st),
+                ("C10", 2) => vharness::checks_hist::c10_big_case(&mut rng, &mut st),
+                ("C11", 2) => vharness::checks_scale::c11_big_case(&mut rng, &mut st),
+                ("C11", 3) => vharness::checks_scale::c11_huge_case(&mut rng, index, &mut st),
+                #[cfg(feature = "hooks")]
+                ("C01", 6) => vharness::checks_scale::c01_long_case(&mut rng, &mut st),
                 ("C10", 1) => vharness::checks_hist::c10_case(&mut rng, &mut st),
                 ("C11", 1) => vharness::checks_hist::c11_case(&mut rng, &mut st),
                 ("C12", 1) => vharness::checks_hist::c12_case(&mut rng, &mut st),
